@@ -186,6 +186,8 @@ def load_findings():
 
 def run_shard(pid, tier, seed, shard, nshards, replay=None):
     sys.stdout = open(os.devnull, 'w')
+    from rtverif.props import base as _base
+    _base.limit_resources()
     telemetry_start()
     ctx = Ctx(pid, tier, seed, shard, nshards)
     mod = importlib.import_module('rtverif.props.%s' % pid.lower())
